@@ -33,10 +33,10 @@ LEVEL = ("Exactly-once teardown (at most one Accounting-Stop and one map removal
          "code's pool, session table, accounting and map-removal observations.")
 ASSUME = [
     "RADIUS accounting is observed as the Stop records a real loopback accounting server accepts; the eBPF removal as the callback invocations",
-    "concurrent terminations are modelled as sequential ones (SessionTeardown.cleanup runs under its mutex; the tornDown flag is set under the session lock)",
     "the idle-sweep leak of the PPPoE server is the recorded finding KF-pppoe-idle-leak",
     "translator harness/cmd/extractpaths (go/ast, no type information): the table lists what is syntactically reachable inside the package (depth 4, calls resolved only through the receiver or a package-unique name); guards, order and arguments of the calls are not in the table - those are the models' and the correspondence runs' business",
-    "subscriber.Manager: two TerminateSession calls are interleaved at the manager's unlock points (tbegin/tresume); AssignAddress on a session that already holds an address (incl. while its termination is parked) lies outside Bng.SubMgr.Valid: the two recorded findings KF-submgr-reassign-leak / KF-submgr-assign-race",
+    "subscriber.Manager: TerminateSession calls are interleaved at the manager's unlock points (tbegin/tresume), and AssignAddress calls are held inside the allocator call between their two critical sections (abegin/aresume) with terminations, creates and other assignments in the window; the allocator stub parks the call BEFORE it picks the address (the manager cannot tell where inside the allocator call time passes). An AssignAddress that hands a LIVE session a second address lies outside Bng.SubMgr.Valid: the recorded finding KF-submgr-reassign-leak",
+    "concurrent terminations of pppoe.SessionTeardown: one call can be held after it claimed the session (tpark/tresume), other calls run in the window",
 ]
 
 
